@@ -39,6 +39,10 @@ def run(tier, seed):
     F.design(rep, PID, tier)
     H.import_opfython()
     out, items = F.run_items(rep, scenarios(rep, tier, seed), PIDS, "c02")
+    lt = S.learn_traces(random.Random(seed + 4444), 300 if tier == "thorough" else 50)
+    if lt:
+        S.judge(rep, lt, "c02learn", PIDS, want_m=False)
+        rep.cov["forests_left_by_learn_judged"] = len(lt)
     rep.cov["undecided_by_exact_procedure"] = out.get("undecided", 0)
     rep.cov["rule"] = "exact decision per observed (W, labels, prototypes): distinct weights -> unique tree by Prim in TLA+; ties -> observed Prim tree as certificate, else all (n-1)-subsets of arcs for n<=7; lattice data gives the tie patterns"
     rep.assumptions = ["TLC", "order-embedding of floats is exact", "tied inputs are generated with n<=7 so the exact procedure always decides"]
